@@ -1,6 +1,34 @@
 """Property -> rules table (DESIGN 3) with the evidence texts."""
 
 PROPS = {
+    'C06': {
+        'rules': ['R-durable-before-ack', 'R-ack-after-store', 'R-dump-before-trim', 'R-restart-keeps-journal', 'R-log-owners', 'R-head-drop-atomic', 'R-write-then-publish'],
+        'explanation': 'x', 'level_text': 'x', 'level_note': 'x', 'technique': 'x',
+    },
+    'C07': {
+        'rules': ['R-vote-durable'],
+        'explanation': 'x', 'level_text': 'x', 'level_note': 'x', 'technique': 'x',
+    },
+    'C08': {
+        'rules': ['R-write-then-publish', 'R-record-layout', 'R-bounded-write', 'R-meta-atomic', 'R-head-drop-atomic', 'R-tail-drop-monotone', 'R-journal-siblings'],
+        'explanation': 'x', 'level_text': 'x', 'level_note': 'x', 'technique': 'x',
+    },
+    'C05': {
+        'rules': ['R-timer-reset', 'R-sender-total', 'R-reply-exhaustive', 'R-disposition'],
+        'explanation': 'x', 'level_text': 'x', 'level_note': 'x', 'technique': 'x',
+    },
+    'C18': {
+        'rules': ['R-majority', 'R-no-vote-without-address', 'R-observer-bookkeeping', 'R-selfnode-deref'],
+        'explanation': 'x', 'level_text': 'x', 'level_note': 'x', 'technique': 'x',
+    },
+    'C20': {
+        'rules': ['R-fallback-every-tick', 'R-response-time-writes', 'R-hasquorum', 'R-majority'],
+        'explanation': 'x', 'level_text': 'x', 'level_note': 'x', 'technique': 'x',
+    },
+    'C10': {
+        'rules': ['R-gate-live', 'R-rollback-paired', 'R-apply-on-append', 'R-removed-excluded'],
+        'explanation': 'x', 'level_text': 'x', 'level_note': 'x', 'technique': 'x',
+    },
     'C02': {
         'rules': ['R-cb-linear', 'R-success-guard', 'R-disposition', 'R-commit-gate'],
         'explanation': 'x', 'level_text': 'x', 'level_note': 'x', 'technique': 'x',
